@@ -178,9 +178,11 @@ class Sched(object):
         if verdict == 'deadlock':
             self.deadlock = [
                 (t.name, t.label) for t in self.threads if t.state != 'done']
+        frames = sys._current_frames()
         for t in self.threads:
             if t.state != 'done' and t.stack is None:
-                t.stack = (t.state, t.label, t.deadline)
+                t.stack = (t.state, t.label, t.deadline,
+                           _where(frames.get(t.real.ident)))
         self.aborting = True
         self.main_baton.release()
 
@@ -347,10 +349,10 @@ class VLock(object):
             self.count += 1
             return True
         s = S
-        s.point('acquire', self.label)
         if self.reentrant and self.owner is me:
-            self.count += 1
+            self.count += 1           # invisible to other threads: no point
             return True
+        s.point('acquire', self.label)
         if self.owner is not None:
             if not blocking:
                 return False
@@ -610,6 +612,19 @@ def touch(label):
 
 
 Sched.traced = frozenset()
+
+
+def _where(frame):
+    """Innermost frames inside the library under test (module.function)."""
+    out = []
+    while frame is not None and len(out) < 3:
+        fn = frame.f_code.co_filename.replace('\\', '/')
+        if '/src/nfc/' in fn:
+            mod = fn.split('/src/')[-1][:-3].replace('/', '.')
+            out.append('%s.%s' % (mod, getattr(frame.f_code, 'co_qualname',
+                                               frame.f_code.co_name)))
+        frame = frame.f_back
+    return out
 
 
 def format_stuck(s):
